@@ -79,7 +79,7 @@ Reuse(frame) ==       \* [st, names, cells, warn]
   ELSE IF KindChanged(frame) THEN [st |-> "ENCODING-ERROR", names |-> <<>>, cells |-> <<>>, warn |-> FALSE, kept |-> <<>>]
   ELSE LET kept == M!Kept(frame, M!DropSet(frame, <<Form>>, "drop", {}))
            b == M!BuildOn(frame, Form, Opts, kept, RecLevels, Fit.scoped)
-       IN [st |-> "OK", names |-> M!Names(b), cells |-> M!Cells(b, Len(kept)), kept |-> kept,
+       IN [st |-> "OK", names |-> M!Names(b), cells |-> M!Cells(b, Len(kept)), kept |-> kept, slices |-> M!Slices(b),
            warn |-> \E i \in DOMAIN DataFactors : M!Unseen(frame, DataFactors[i], kept, M!RecFor(RecLevels, DataFactors[i].e))]
 
 Base == FollowOf(t, u)
@@ -98,14 +98,57 @@ KindChangeIsAnError == (u \in {3, 4} /\ ~Unmodelled(Base) /\ \E i \in DOMAIN Dat
                           => Whole.st = "ENCODING-ERROR"
 UnseenAnnounced == (u = 2 /\ Whole.st = "OK" /\ \E i \in DOMAIN DataFactors : DataFactors[i].kind = "cat") => Whole.warn
 
+
+\* ---- ModelSpec.subset(terms): the recorded specification restricted to some of its terms ----
+\* `subset` keeps, for the chosen terms (here: positions p of the formula, in formula order), the structure recorded for them and everything
+\* else the parent recorded (levels, kinds, transform state); its documentation promises that "columns generated from the subset model
+\* spec are guaranteed to match the corresponding columns generated from this parent model spec". Only the factors of the chosen
+\* terms are evaluated, so only their kinds are guarded, only their nulls drop rows and only their unseen levels are announced.
+\* Variants (design errors TLC must refute): "rescoped" derives the structure of the restricted formula afresh (the documentation warns
+\* that this differs: a factor reduced against a term that is no longer there would become full), "relevelled" forgets the recorded
+\* levels of the restricted formula's factors (they are re-discovered from the follow-up data).
+PosSeqs == {p \in UNION {[1..k -> DOMAIN Form] : k \in 1..Len(Form)} : \A i \in 1..(Len(p) - 1) : p[i] < p[i + 1]}
+Pick(q, p) == [i \in DOMAIN p |-> q[p[i]]]
+SubFactors(p) == M!DataFactors(Pick(Form, p))
+SubKindChanged(frame, p) == \E i \in DOMAIN SubFactors(p) : LET f == SubFactors(p)[i] IN ~f.forced /\ frame.cols[f.col].kind # RecKind(f)
+SubUnmodelled(frame, p) == \E i \in DOMAIN SubFactors(p) : SubFactors(p)[i].forced /\ frame.cols[SubFactors(p)[i].col].kind # "cat"
+SubsetReuseV(frame, p, variant) ==
+  IF SubUnmodelled(frame, p) THEN [st |-> "UNMODELLED", names |-> <<>>, cells |-> <<>>, warn |-> FALSE, kept |-> <<>>]
+  ELSE IF SubKindChanged(frame, p) THEN [st |-> "ENCODING-ERROR", names |-> <<>>, cells |-> <<>>, warn |-> FALSE, kept |-> <<>>]
+  ELSE LET form == Pick(Form, p)
+           kept == M!Kept(frame, M!DropSet(frame, <<form>>, "drop", {}))
+           b == M!BuildOn(frame, form, Opts, kept, IF variant = "relevelled" THEN <<>> ELSE RecLevels, IF variant = "rescoped" THEN <<>> ELSE Pick(Fit.scoped, p))
+       IN [st |-> "OK", names |-> M!Names(b), cells |-> M!Cells(b, Len(kept)), kept |-> kept,
+           warn |-> \E i \in DOMAIN SubFactors(p) : M!Unseen(frame, SubFactors(p)[i], kept, M!RecFor(RecLevels, SubFactors(p)[i].e))]
+SubsetReuse(frame, p) == SubsetReuseV(frame, p, "recorded")
+\* the columns of the parent's replay that belong to the terms p
+SliceOff(sl, k) == SumSeq(SubSeq(sl, 1, k - 1))
+ColsOf(sl, p) == M!FlatMapM(LAMBDA k : [j \in 1..sl[k] |-> SliceOff(sl, k) + j], p)
+\* the law: whenever the parent's replay answers, so does every restriction, with the parent's names for its terms and, on every row both
+\* keep, the parent's cells (a restriction can keep rows the parent drops: it reads fewer columns)
+SubsetLaw(variant) == Whole.st = "OK" => \A p \in PosSeqs :
+   LET s == SubsetReuseV(Base, p, variant)
+       cols == ColsOf(Whole.slices, p)
+   IN /\ s.st = "OK"
+      /\ s.names = [j \in DOMAIN cols |-> Whole.names[cols[j]]]
+      /\ \A r \in DOMAIN Whole.kept : LET row == Whole.kept[r] IN
+            /\ row \in {s.kept[q] : q \in DOMAIN s.kept}
+            /\ s.cells[PosIn(s.kept, row)] = [j \in DOMAIN cols |-> Whole.cells[r][cols[j]]]
+SubsetMatchesParent == SubsetLaw("recorded")
+SubsetRescoped == SubsetLaw("rescoped")        \* refuted
+SubsetRelevelled == SubsetLaw("relevelled")    \* refuted
+\* the whole formula as its own restriction is the parent
+SubsetIdentity == LET all == [i \in DOMAIN Form |-> i] s == SubsetReuse(Base, all) IN
+   s.st = Whole.st /\ s.names = Whole.names /\ s.cells = Whole.cells /\ s.warn = Whole.warn
 FrameOut(f) == [n |-> f.n, cols |-> [c \in DOMAIN f.cols |-> [kind |-> f.cols[c].kind, num |-> f.cols[c].num, cat |-> f.cols[c].cat,
                                    nulls |-> SetToSortSeq(f.cols[c].nulls, <), lv |-> f.cols[c].lv, declared |-> f.cols[c].declared]]]
 ROut(r) == [st |-> r.st, names |-> r.names, cells |-> r.cells, warn |-> r.warn, kept |-> r.kept]
+SubsetsOut == LET ps == SetToSeq(PosSeqs) IN [i \in DOMAIN ps |-> [pos |-> ps[i], out |-> ROut(SubsetReuse(Base, ps[i]))]]
 Out == IOEnv.OUT_FILE
 EmitCase == Emit => CSVWrite("%1$s", <<ToJson([t |-> t, u |-> u, formula |-> FormulaText[fid], sel |-> sel,
       train |-> FrameOut(Train[t]), follow |-> FrameOut(Base),
       fit_names |-> M!Names(Fit), fit_cells |-> M!Cells(Fit, Len(KeptT)), levels |-> RecLevels,
-      whole |-> ROut(Whole), picked |-> ROut(Picked)])>>, Out)
+      whole |-> ROut(Whole), picked |-> ROut(Picked), subsets |-> IF sel = <<>> THEN SubsetsOut ELSE <<>>])>>, Out)
 
 Init == /\ t \in DOMAIN Train /\ u \in 0..Len(Follow) /\ fid \in DOMAIN Formulas
         /\ sel \in {<<>>} \cup UNION {[1..k -> 1..FollowOf(t, u).n] : k \in 1..MaxSel}
